@@ -29,6 +29,9 @@ func allPropsUnsorted() []*propInfo {
 				{ID: "C01.4", Doc: "[atoms] pull eligibility is exact", Run: ruleC01_4},
 				{ID: "C01.5", Doc: "[who] lease bookkeeping columns have one writer", Run: ruleC01_5},
 				{ID: "C02.2", Doc: "[atoms] (shared) no delivery mutation reaches another subscription's rows: other subscriptions' acks/seeks cannot make a message disappear", Run: ruleC02_2},
+				{ID: "C07.1", Doc: "[dom] (shared) a matching message gets its delivery: the routing decision uses the subscription's stored filter, parsed by this call", Run: ruleC07_1},
+				{ID: "C09.1", Doc: "[K5] (shared) a Publish that reports success has stored its message: no storage or commit error is swallowed", Run: ruleC09_1},
+				{ID: "C09.2", Doc: "[dom] (shared) the transaction helper commits iff the operation succeeded and reports commit errors", Run: ruleC09_2},
 			},
 		},
 		{
@@ -46,6 +49,7 @@ func allPropsUnsorted() []*propInfo {
 				{ID: "C02.3", Doc: "[who] messages are immutable", Run: ruleC02_3},
 				{ID: "C02.4", Doc: "[dep] content provenance", Run: ruleC02_4},
 				{ID: "C06.4", Doc: "[dom][who] (shared) dead-letter forwarding loads the original message whole, so the target subscriptions' filters see its attributes", Run: ruleC06_4},
+				{ID: "C07.1", Doc: "[dom] (shared) a delivery is created only if the subscription's stored filter, parsed by this call, matches the message", Run: ruleC07_1},
 			},
 		},
 		{
@@ -62,6 +66,7 @@ func allPropsUnsorted() []*propInfo {
 				{ID: "C03.3", Doc: "[who] delivery rows are created only on publish/dead-letter", Run: ruleC03_3, Ctrl: true},
 				{ID: "C03.4", Doc: "[K5] idempotent ack/nack/modify-deadline", Run: ruleC03_4},
 				{ID: "C06.5", Doc: "[atoms] (shared) a nack's candidates are outstanding: a late nack of an acked id has no side effect (no dead-letter forward, no reschedule)", Run: ruleC06_5},
+				{ID: "C09.6", Doc: "[dep] (shared) Execute is re-executable: a retried Acknowledge acks the same ids", Run: ruleC09_6},
 			},
 		},
 		{
@@ -186,7 +191,7 @@ func allPropsUnsorted() []*propInfo {
 				"C09.2 DoTx marks success only when inner returned nil, commits iff success and rolls back otherwise, and a Commit/Rollback error reaches the result unless the result already is a context error; pruneService.runOnce commits only on success and rolls back on every other exit; " +
 				"C09.3 (K4) every wake-up call in package actions sits in an ent.CommitFunc registered through tx.OnCommit and is dominated by the nil edge of the wrapped Commit; outside actions only the LISTEN/NOTIFY receiver may wake; " +
 				"C09.4 a Publish batch shares one transaction, a stream request's acks and nacks share one, no unary handler opens a transaction inside a loop, a mutation outside a transaction is the single statement of its operation; " +
-				"C09.5 no unary handler returns an error on a path where its transaction already committed. " +
+				"C09.5 no unary handler returns an error on a path where its transaction already committed; C09.6 no action Execute updates one of its own parameters from that parameter's previous value (the retrying runner re-executes the same operation). " +
 				"NOT decided: driver/database atomicity, cancellation timing, 'retry has the same effect', the pull's first (expiry-refresh) transaction committing before a later one fails.",
 			Assumptions: []string{k1Assumption, "the SQL driver makes a transaction atomic; Rollback undoes every statement of it"},
 			Rules: []ruleFn{
@@ -195,6 +200,7 @@ func allPropsUnsorted() []*propInfo {
 				{ID: "C09.3", Doc: "[K4][who] wake-ups only after a successful commit", Run: ruleC09_3, Ctrl: true},
 				{ID: "C09.4", Doc: "[dom] one operation, one transaction", Run: ruleC09_4},
 				{ID: "C09.5", Doc: "[dom] no error after commit in unary handlers", Run: ruleC09_5},
+				{ID: "C09.6", Doc: "[dep] Execute is re-executable (retry has the same effect)", Run: ruleC09_6},
 			},
 		},
 		{
@@ -306,7 +312,7 @@ func allPropsUnsorted() []*propInfo {
 			Explanation: "Static necessary conditions of 'filter syntax: accept exactly the language, never store anything else, print/parse round-trips': " +
 				"C08.1 subscriptions.filter is written only by CreateSubscription.Execute and the UpdateSubscription handler, and every stored non-nil value is dominated by the nil-error edge of ParseString (or a wrapper whose every nil-error return is) on the same string; " +
 				"C08.2 (K9) the printer writes Name fields only through formatAttrName and Value fields only through strconv.Quote; C08.3 formatAttrName returns a name unquoted only if it is non-empty and every rune is '_' / letter / digit-not-in-first-position (idiom-bound); " +
-				"C08.4 (K7) every grammar type has an AsFilter method that reads every captured field; C08.5 a stored filter that fails to parse skips the subscription instead of failing the publish. " +
+				"C08.4 (K7) every grammar type has an AsFilter method that reads every captured field; C08.6 a sub-condition is always printed between parentheses; C08.5 a stored filter that fails to parse skips the subscription instead of failing the publish. " +
 				"NOT decided: 'accepted iff sentence of the documented grammar', parser totality/termination (third-party participle), full print/parse round-trip.",
 			Assumptions: []string{"participle builds the parser the struct tags describe; its lexer's identifier rule is text/scanner's (letter or '_' first, then letters/digits/'_')"},
 			Rules: []ruleFn{
@@ -314,6 +320,7 @@ func allPropsUnsorted() []*propInfo {
 				{ID: "C08.2", Doc: "[K9] printer sanitisation", Run: ruleC08_2},
 				{ID: "C08.3", Doc: "[dom] an unquoted name is a non-empty identifier", Run: ruleC08_3},
 				{ID: "C08.4", Doc: "[K7] printer exhaustive", Run: ruleC08_4},
+				{ID: "C08.6", Doc: "[dom] sub-conditions are printed in parentheses", Run: ruleC08_6},
 				{ID: "C07.1", Doc: "[dom] (shared, C08.5) unparsable stored filter skips", Run: ruleC07_1},
 			},
 		},
